@@ -50,6 +50,7 @@ def step (st : St) (n : Nat) (ln : Line) : St × List String :=
       fun (p, m) => pageJudge st.ks pfx delimSlash maxKeys m p
     let pjOut : List String := match pj with | c :: _ => [specfail n c detail] | [] => []
     let wj : Option String := if o.getD 0 "" == "ok" ∧ marker0 == [] ∧ maxSteps > 1 then walkJudge st.ks pfx delimSlash contNext maxKeys ipages else none
+    let rj : Option String := if o.getD 0 "" == "ok" ∧ marker0 != [] ∧ maxSteps > 1 then resumeJudge st.ks pfx delimSlash contNext maxKeys ipages else none
     let x := excl st.ks pfx
     let cov := (if pages.length > 1 then ["COV walk.multi-page"] else ["COV walk.single-page"])
       ++ (if delimSlash then ["COV walk.delim-slash"] else ["COV walk.delim-none"])
@@ -57,13 +58,14 @@ def step (st : St) (n : Nat) (ln : Line) : St × List String :=
       ++ (if marker0 != [] then ["COV walk.arbitrary-marker"] else [])
       ++ (if marker0 != [] ∧ pages.length > 1 then ["COV walk.start-after-continued"] else [])
       ++ (if a.getD 0 "" == "v2b" then ["COV walk.start-after-resent-with-token"] else [])
+      ++ (if a.getD 0 "" == "v2b" ∧ pages.any (fun p => p.trunc && SwV.Model.C19.ltB p.next marker0) then ["COV walk.resent-token-below-start-after"] else [])
       ++ (if st.ks.length > 1024 then ["COV walk.big-directory"] else [])
       ++ (if x.uploadsInWindow then ["COV walk.uploads-in-window"] else [])
       ++ (if x.prefixHasDir then ["COV walk.prefix-has-dir"] else [])
       ++ (if x.deepKeys then ["COV walk.deep-keys"] else [])
       ++ (if pages.any (fun p => !p.pfxs.isEmpty) then ["COV walk.common-prefixes"] else [])
-      ++ (if wj.isNone && pjOut.isEmpty && decide (pages.length > 1) then ["COV walk.multi-page-clean"] else [])
-    ({ ks := ksAfter }, diff n ln model ++ pjOut ++ judgeOut n wj detail ++ delOut ++ cov)
+      ++ (if wj.isNone && rj.isNone && pjOut.isEmpty && decide (pages.length > 1) then ["COV walk.multi-page-clean"] else [])
+    ({ ks := ksAfter }, diff n ln model ++ pjOut ++ judgeOut n wj detail ++ judgeOut n rj detail ++ delOut ++ cov)
   | _ => (st, [s!"DIFF {n} unknown-op {ln.op}"])
 
 def main : IO Unit := run { init := ({} : St), step := step }
